@@ -109,7 +109,7 @@ func init() {
 	}
 	register(&PropSpec{
 		ID: "C19",
-		Explanation: "Decides structurally, for every configuration: both discovery builders put IssuerFromContext(ctx) into Issuer (the value every token-creating call site passes as issuer - closed-world tables), build each endpoint URL with Absolute(issuer) from exactly the endpoint getter / Endpoints field that the corresponding router registers with Relative() for the handler of that endpoint (8+8 route rows, nil endpoints neither routed nor advertised; CheckSessionIframe is advertised without a route only while its field has no writer), take grant types / PKCE methods / auth methods from lists that append a value if and only if the capability predicate holds (the same predicate the token-endpoint dispatch tests, C05), and report request-object support from the flag that gates ParseRequestObject (C14); VerifyCodeChallenge implements S256; ValidateIssuer accepts only non-empty, parseable, host-carrying https (or opted-in http) issuers without query or fragment, and every issuer constructor and NewProvider propagate its error; client.Discover returns a document only if its issuer equals the requested one. Does not decide free-form absolute URLs of NewEndpointWithURL nor probing.",
+		Explanation: "Decides structurally, for every configuration: both discovery builders put IssuerFromContext(ctx) into Issuer (the value every token-creating call site passes as issuer - closed-world tables), build each endpoint URL with Absolute(issuer) from exactly the endpoint getter / Endpoints field that the corresponding router registers with Relative() for the handler of that endpoint (8+8 route rows, nil endpoints neither routed nor advertised; CheckSessionIframe is advertised without a route only while its field has no writer), take grant types / PKCE methods / auth methods from lists that append a value if and only if the capability predicate holds (the same predicate the token-endpoint dispatch tests, C05), and report request-object support from the flag that gates ParseRequestObject (C14); VerifyCodeChallenge implements S256; ValidateIssuer accepts only non-empty, parseable, host-carrying https (or opted-in http) issuers without query or fragment, and every issuer constructor and NewProvider propagate its error; client.Discover returns a document only if its issuer equals the requested one. Does not decide free-form absolute URLs of NewEndpointWithURL nor probing. Round 3: routes are decided by handler target (go/types reachability through factories, literals, method values, wrappers) instead of handler spelling; middleware installed by the library on its routers is reviewed (no URL / query / form rewriting, issuer interceptor in front of every endpoint route); Provider.endpoints is set during construction only.",
 		RuleText:    "obligation = (rule, function, sink site) incl. route-table rows and literal-binding patterns; non-trivial when a guard fact or a table row was needed",
 		Assumptions: []string{"chi routes exactly the registered patterns", "applications using NewEndpointWithURL supply a truthful absolute URL"},
 		Trusted:     []string{"go/types, go/cfg (x/tools v0.50.0)", "chi router", "net/url"},
